@@ -349,3 +349,109 @@ func FormatOf(net Net, addr string, pub33 []byte) string {
 	}
 	return ""
 }
+
+// ------------------------------------------------ imported keys and scripts
+
+// Uncompressed is the 65-byte serialization 0x04 || X || Y of a compressed key.
+func Uncompressed(pub33 []byte) ([]byte, error) {
+	p, err := btcec.ParsePubKey(pub33)
+	if err != nil {
+		return nil, err
+	}
+	out := make([]byte, 65)
+	out[0] = 4
+	p.X().FillBytes(out[1:33])
+	p.Y().FillBytes(out[33:65])
+	return out, nil
+}
+
+// AddressOfSerialized encodes a public key given in the serialization the
+// owner uses for it (33 or 65 bytes): the hash formats hash that
+// serialization, the taproot format only depends on the point.
+func AddressOfSerialized(net Net, format string, pub []byte) (string, error) {
+	if len(pub) == 33 {
+		return Address(net, format, pub)
+	}
+	h := Hash160(pub)
+	switch format {
+	case P2PKH:
+		return Base58Check(net.PKHVersion, h), nil
+	case P2WKH:
+		return SegwitAddr(net.HRP, 0, h), nil
+	case NP2WKH:
+		return Base58Check(net.SHVersion, Hash160(append([]byte{0x00, 0x14}, h...))), nil
+	case P2TR:
+		p, err := btcec.ParsePubKey(pub)
+		if err != nil {
+			return "", err
+		}
+		return Address(net, P2TR, p.SerializeCompressed())
+	}
+	return "", errors.New("hdoracle: unknown format " + format)
+}
+
+// WitnessScriptAddress is the P2WSH address of a script (BIP141).
+func WitnessScriptAddress(net Net, script []byte) string {
+	h := sha256.Sum256(script)
+	return SegwitAddr(net.HRP, 0, h[:])
+}
+
+func compactSize(n int) []byte {
+	switch {
+	case n < 0xfd:
+		return []byte{byte(n)}
+	case n <= 0xffff:
+		return []byte{0xfd, byte(n), byte(n >> 8)}
+	}
+	return []byte{0xfe, byte(n), byte(n >> 8), byte(n >> 16), byte(n >> 24)}
+}
+
+// TapLeafHash is BIP341's leaf hash.
+func TapLeafHash(leafVersion byte, script []byte) [32]byte {
+	msg := append([]byte{leafVersion}, compactSize(len(script))...)
+	return taggedHash("TapLeaf", append(msg, script...))
+}
+
+// TaprootScriptOutputKey is BIP341's Q = lift_x(P) + H_TapTweak(P.x || root)*G
+// (x-only) for internal key P and script tree root.
+func TaprootScriptOutputKey(internal33 []byte, root []byte) ([]byte, error) {
+	even := append([]byte{0x02}, internal33[1:]...)
+	p, err := btcec.ParsePubKey(even)
+	if err != nil {
+		return nil, err
+	}
+	t := taggedHash("TapTweak", append(append([]byte{}, internal33[1:]...), root...))
+	var ts btcec.ModNScalar
+	if ts.SetBytes(&t) != 0 {
+		return nil, errors.New("hdoracle: tweak out of range")
+	}
+	var a, b, r btcec.JacobianPoint
+	btcec.ScalarBaseMultNonConst(&ts, &a)
+	p.AsJacobian(&b)
+	btcec.AddNonConst(&a, &b, &r)
+	r.ToAffine()
+	q := btcec.NewPublicKey(&r.X, &r.Y).SerializeCompressed()
+	return q[1:], nil
+}
+
+// TaprootSingleLeafAddress is the P2TR address committing to internal key P and
+// a tree made of the single leaf (version 0xc0, script).
+func TaprootSingleLeafAddress(net Net, internal33 []byte, script []byte) (string, error) {
+	root := TapLeafHash(0xc0, script)
+	q, err := TaprootScriptOutputKey(internal33, root[:])
+	if err != nil {
+		return "", err
+	}
+	return SegwitAddr(net.HRP, 1, q), nil
+}
+
+// FormatOfSerialized finds the format under which addr encodes the public key
+// given in its owner's serialization ("" if none).
+func FormatOfSerialized(net Net, addr string, pub []byte) string {
+	for _, f := range Formats {
+		if a, err := AddressOfSerialized(net, f, pub); err == nil && a == addr {
+			return f
+		}
+	}
+	return ""
+}
